@@ -75,7 +75,10 @@ impl Storage for Faulty {
         keyspace: &str,
         keys: impl Iterator<Item = Key> + Send,
     ) -> Result<(), BulkMutationError<Self::Error>> {
-        let keys: Vec<Key> = keys.collect();
+        // the set hands the purged keys over in HashMap order: a partial failure is
+        // defined on the keys in ascending order so that it does not depend on that order
+        let mut keys: Vec<Key> = keys.collect();
+        keys.sort();
         match self.take_plan() {
             Plan::Ok => self.inner.remove_tombstones(keyspace, keys.into_iter()).await,
             Plan::Fail => Err(BulkMutationError::empty_with_error(injected())),
